@@ -29,7 +29,7 @@ def plan(tier, seed):
 def conclude(agg):
     c = agg['counters']
     return [f'monitor counter {k} is zero' for k in ('nodes_yielded', 'lines_yielded', 'level_checks', 'fanin_sets', 'circuits_with_open_pin0', 'circuits_with_state',
-                                                     'lookups', 'lookups_2d', 'lookups_ge10', 'lookups_none', 'removed_lines', 'rewired_same_counts', 'relookups_after_edit')
+                                                     'lookups', 'lookups_2d', 'lookups_ge10', 'lookups_none', 'removed_lines', 'rewired_same_counts', 'relookups_after_edit', 'wide_fanout_circuits')
             if c.get(k, 0) == 0]
 
 
@@ -347,6 +347,10 @@ def run(spec, ctx):
         rng = random.Random(f'C17/{spec["seed"]}/{spec["shard"]}/{i}')
         feats = [f for f in feats_all if rng.random() < 0.4]
         net = G.gen_net(rng, feats=feats, max_gates=rng.choice([6, 20, 50]))
+        if i in (1, 2):
+            # nets with several hundred readers (clock / reset like): forks with more than 255 branches, levels hundreds of nodes wide
+            net = G.gen_net(rng, feats=[], n_in=rng.choice([1, 2]), n_gates=rng.choice([300, 420]), n_ff=rng.choice([0, 2]), wide=rng.choice([150, 300]), style=rng.choice(['v', 'b']))
+            ctx.count('wide_fanout_circuits')
         case = {'net': net, 'rseed': rng.randrange(1 << 30), 'nremove': rng.choice([0, 0, 1, 3, 6]), 'nfanin': 4}
         check_traversals(case, ctx)
     for i in range(spec['names']):
